@@ -31,6 +31,11 @@ def plan(tier, seed):
                       "cfg_over": {"max_T": 4 if tier == "quick" else 6}, "force": force,
                       "force_T2": True, "vf": ["ref", "random"][i % 2],
                       "agents": 32 if tier == "quick" else 256, "env": {"VERIF_X64": "1"}})
+    # large panels of an odd size (any batching over agents is exercised)
+    for i in range(2 if tier == "quick" else 10):
+        cases.append({"index": 4 * i, "seed": [seed, 33, i], "cfg": "quick", "cfg_over": {"max_T": 3, "min_T": 2, "max_cells": 3000},
+                      "force": {"stochastic": True, "period_transition": False, "two_stochastic": False, "poison": False}, "force_T2": True, "vf": "ref",
+                      "agents": [12345, 20321][i % 2], "env": {"VERIF_X64": "1"}})
     # many categories + labels given in a narrow integer dtype (pandas categorical codes are int8)
     for i in range(6 if tier == "quick" else 60):
         cases.append({"index": i, "seed": [seed, 32, i], "template": "many_categories", "cfg": "quick", "force_T2": True, "vf": "ref",
